@@ -43,7 +43,7 @@ def headline(seed):
     for line in open(p, errors='replace'):
         m = re.match(rf'^#+\s*[Vv]ariant\s+{v}\b\W*(.*)$', line.strip())
         if m:
-            t = re.sub(r'\(`?[a-h]\.diff`?.*?\)', '', m.group(1))
+            t = re.sub(r'\(`?[a-n]\.diff`?.*?\)', '', m.group(1))
             t = t.strip(' -—:–').replace('|', '/')
             return t[:130]
     return ''
